@@ -530,7 +530,9 @@ func (s *scope) Close() error {
 	if !s.closed.CAS(false, true) {
 		return nil
 	}
-	verifYield(66)
+	if s.root {
+		verifYield(66)
+	}
 
 	close(s.done)
 
